@@ -2,6 +2,8 @@ from __future__ import annotations
 
 from typing import TYPE_CHECKING
 
+import numpy as np
+
 from ._base import BasicAction
 
 if TYPE_CHECKING:
@@ -32,7 +34,9 @@ class UpdateNodeSeg(BasicAction):
         """
         super().__init__(tracks)
         self.node = node
-        self.pixels = pixels
+        # keep a private copy: the action is applied again on undo/redo, long after the
+        # caller may have reused its index arrays
+        self.pixels = tuple(np.array(p) for p in pixels)
         self.added = added
         self._apply()
 
